@@ -269,11 +269,40 @@ class Program:
         imported = {a.name for _n, _p, _s, t_, _k in parsed for st_ in ast.walk(t_) if isinstance(st_, ast.ImportFrom) for a in st_.names}
         pkg_funcs = {k: (_copy.deepcopy(f), _copy.deepcopy(b)) for k, (f, b) in pkg_funcs.items()}
         attr_by_module = {n_: {x.attr for x in ast.walk(t_) if isinstance(x, ast.Attribute)} for n_, _p, _s, t_, _k in parsed}
+        processed = []
         for name, path, src, tree, is_pkg in parsed:
             elsewhere = set().union(*[v for k_, v in attr_by_module.items() if k_ != name]) if len(attr_by_module) > 1 else set()
             tree, inl = inline_new_helpers(tree, short(name), ambiguous, pkg_funcs, pkg_meths, is_pkg, imported | elsewhere, pkg_bindings)
             if inl:
                 self.inlined[name] = inl
+            processed.append((name, path, src, tree, is_pkg))
+        # a private helper that is new to the rule catalogue and is no longer referenced anywhere (every call, in every module, was replaced by its body) is dead
+        # code: drop it together with the imports of it, so that no rule judges a function nobody calls
+        from .inline import reference_functions
+        ref_ = reference_functions()
+        trees_ = [t_ for _n, _p, _s, t_, _k in processed]
+        for name, path, src, tree, is_pkg in processed:
+            for st in list(tree.body):
+                if isinstance(st, ast.FunctionDef) and st.name.startswith("_") and not st.name.startswith("__") and f"{short(name)}:{st.name}" not in ref_:
+                    used = False
+                    for t_ in trees_:
+                        for x in ast.walk(t_):
+                            if (isinstance(x, ast.Name) and x.id == st.name) or (isinstance(x, ast.Attribute) and x.attr == st.name) or \
+                                    (isinstance(x, ast.Constant) and x.value == st.name):
+                                used = True
+                                break
+                        if used:
+                            break
+                    if not used:
+                        tree.body.remove(st)
+                        self.inlined.setdefault(name, []).append("-" + st.name)
+                        for t_ in trees_:
+                            for imp in [y for y in ast.walk(t_) if isinstance(y, ast.ImportFrom)]:
+                                if any(a.name == st.name for a in imp.names) and len(imp.names) > 1:
+                                    imp.names = [a for a in imp.names if a.name != st.name]
+                                elif any(a.name == st.name for a in imp.names):
+                                    imp.names = [ast.alias(name="__name__", asname="_jv_removed_import")]
+        for name, path, src, tree, is_pkg in processed:
             tree = canonicalise(tree, short(name))
             m = Module(name, path, os.path.relpath(path, self.repo), src, tree, is_pkg)
             self.modules[name] = m
